@@ -74,6 +74,25 @@ def c29Step (_ : Unit) (op impl : String) : Unit × String × String :=
     match recOp fs with
     | some out => ((), out, if impl == out then "ok" else "viol:recovery-differs-from-model")
     | none => ((), "bad-op", "ok")
+  | ["expired", pat] =>
+    let cs := pat.toList
+    if cs.isEmpty || cs.length > 16 || !cs.all (fun c => c == 'x' || c == 'l') then ((), "bad-op", "ok") else
+    let flags := cs.map (· == 'x')
+    let sent := activeItems flags
+    let res := flags.map fun x => if x then 2 else 0
+    let out := s!"sent={ints sent} res={ints res} stored={ints sent}"
+    -- the property on the IMPLEMENTATION's output: no expired item reaches the Appender / the store
+    let expiredIdx := (List.range flags.length).filter fun i => flags.getD i false
+    let implSent := match (fields impl).find? (·.startsWith "sent=") with
+      | some f => ((f.drop 5).toString.splitOn ",").filterMap String.toNat?
+      | none => []
+    let bad := implSent.filter fun i => expiredIdx.contains i
+    let verdict :=
+      if impl == "never-answered" then "viol:future-never-completed"
+      else if bad.isEmpty then "ok"
+      else if bad == [0] && flags.getD 1 false then "viol:expired-item-appended:two-leading-inactive"
+      else "viol:expired-item-appended:other"
+    ((), out, verdict)
   | "drain" :: fs =>
     match fs.mapM String.toNat? with
     | some arr =>
